@@ -379,3 +379,88 @@ pub mod sponge {
         Ok(true)
     }
 }
+
+// ------------------------------------------------------------------ "vh." family: variable-length SHA-256
+
+/// p = [len]; ins = the message bytes. The vector's cells are not reachable
+/// from outside the crate, so only the digest is published: honest executions
+/// are judged (completeness and the digest's value), Byzantine ones are not.
+pub mod varsha {
+    use midnight_circuits::{
+        field::{decomposition::chip::P2RDecompositionChip, AssignedNative, NativeChip, NativeGadget},
+        hash::sha256::VarLenSha256Gadget,
+        instructions::{hash::VarHashInstructions, AssignmentInstructions, PublicInputInstructions},
+        testing_utils::FromScratch,
+        types::AssignedByte,
+        vec::{vector_gadget::VectorGadget, AssignedVector},
+    };
+    use midnight_curves::Fq;
+    use midnight_proofs::{
+        circuit::{Layouter, SimpleFloorPlanner, Value},
+        plonk::{Circuit, ConstraintSystem, Error},
+    };
+    use sha2::Digest;
+
+    use crate::{core::prng::Prng, ops::OpCase, util::Fe};
+
+    type F = Fq;
+    type NG = NativeGadget<F, P2RDecompositionChip<F>, NativeChip<F>>;
+    pub const M: usize = 128;
+
+    pub fn gen_case(rng: &mut Prng) -> OpCase {
+        // every block-boundary class of the padding logic, then uniform
+        let len = match rng.below(3) {
+            0 => *rng.pick(&[0usize, 1, 55, 56, 63, 64, 65, 119, 120, 127, 128]),
+            _ => rng.usize(M + 1),
+        };
+        let mode = rng.below(3);
+        let ins: Vec<Fe> = (0..len).map(|_| Fe(Fq::from(match mode { 0 => 0u64, 1 => 0xff, _ => rng.below(256) }))).collect();
+        OpCase { op: "vh.sha256".into(), p: vec![len as u64], big: vec![], ins, bins: vec![], cols: 4, mbl: 8 }
+    }
+
+    #[derive(Clone)]
+    pub struct VarShaCircuit {
+        pub case: OpCase,
+        pub known: bool,
+    }
+
+    impl Circuit<F> for VarShaCircuit {
+        type Config = (<VarLenSha256Gadget<F> as FromScratch<F>>::Config, <VectorGadget<F> as FromScratch<F>>::Config);
+        type FloorPlanner = SimpleFloorPlanner;
+        type Params = ();
+        fn without_witnesses(&self) -> Self {
+            VarShaCircuit { case: self.case.clone(), known: false }
+        }
+        fn configure(meta: &mut ConstraintSystem<F>) -> Self::Config {
+            let committed = meta.instance_column();
+            let plain = meta.instance_column();
+            let cols = [committed, plain];
+            (VarLenSha256Gadget::configure_from_scratch(meta, &cols), VectorGadget::configure_from_scratch(meta, &cols))
+        }
+        fn synthesize(&self, config: Self::Config, mut l: impl Layouter<F>) -> Result<(), Error> {
+            let chip = VarLenSha256Gadget::<F>::new_from_scratch(&config.0);
+            let ng = NG::new_from_scratch(&config.1);
+            let vg = VectorGadget::new(&ng);
+            let data: Vec<u8> = self.case.ins.iter().map(|x| x.0.to_bytes_le()[0]).collect();
+            let input: AssignedVector<F, AssignedByte<F>, M, 64> = vg.assign(&mut l, if self.known { Value::known(data) } else { Value::unknown() })?;
+            let out: [AssignedByte<F>; 32] = chip.varhash(&mut l, &input)?;
+            for b in &out {
+                let n: AssignedNative<F> = b.into();
+                ng.constrain_as_public_input(&mut l, &n)?;
+            }
+            chip.load_from_scratch(&mut l)?;
+            ng.load_from_scratch(&mut l)
+        }
+    }
+
+    pub fn check(c: &OpCase, publics: &[Fq]) -> Result<bool, String> {
+        let data: Vec<u8> = c.ins.iter().map(|x| x.0.to_bytes_le()[0]).collect();
+        let d: [u8; 32] = sha2::Sha256::digest(&data).into();
+        let e: Vec<Fq> = d.iter().map(|b| Fq::from(*b as u64)).collect();
+        if publics == e.as_slice() {
+            Ok(true)
+        } else {
+            Err(format!("variable-length SHA-256 of a {}-byte message (capacity {M}): the circuit publishes another digest than the reference function", data.len()))
+        }
+    }
+}
